@@ -452,6 +452,7 @@ var c03Aliasing = []string{
 	"%fdnp = %fdnp", "%fdnp.toString()", "%fdtnp.toString()", "%fdtnp = %fdt", "%fdtnp < %fdt", "%ftnp.toString()", "%fdnp.toDateTime()", "%fdtnp.toDate()", "%fdnp + 1 day", "%fdtnp in %multi", "%ftnp = @T01:02:03",
 	"%multis.intersect(%fprims)", "%fprims.intersect(%fprims.skip(1))", "%fprims.intersect($this)", "%fprims.exclude(%fprims.take(2))", "%fprims.distinct()", "%fprims.select($this & 'x')", "%fprims.where($this = 'a')", "%fprims = %fprims",
 	"%tcoll.not()", "%fcoll.not()", "%tcoll.not() or %tcoll", "%multib.take(1).not()", "%multib.tail().not()", "%fprims.tail().take(1).toString()", "%fprims.first().toInteger()", "%fprims.skip(2).first() + 1", "-(%fprims.skip(2).first())",
+	"%kids[%idxc]", "%multi[%idxc]", "%multi[%multi.skip(1).take(1)]", "%kids[%multi.take(1)]", "%names[%idxc].family", "%multi.skip(%idxc)", "%multi.take(%idxc)", "'abc'.substring(%idxc)", "%multis[%idxc] & 'x'", "%idxc + 1", "-%idxc", "%idxc.abs()", "%idxc = 1",
 	"%kids.as(Patient)", "%kids.first() as Element", "%kids.first() is Element", "%r is DomainResource", "%r as Resource",
 	// every element through the type operators and functions (a conversion between related types must not write through shared children)
 	"%r.descendants().select($this as Quantity)", "%r.descendants().select($this as Duration)", "%r.descendants().select($this as Age)", "%r.descendants().ofType(Quantity)", "%r.descendants().where($this is Quantity).count()",
